@@ -56,6 +56,9 @@ fn mode() -> u8 {
 
 /// the value stored in the cell with this id
 fn val_of(id: usize) -> u64 {
+    if let Some(v) = SNAPSHOT.with(|s| s.borrow().as_ref().and_then(|v| v.get(id).copied())) {
+        return v;
+    }
     match mode() {
         0 => id as u64,
         1 => 0,
@@ -93,6 +96,67 @@ impl Dc {
     }
     fn show(&self) -> String {
         if self.id == PLACEHOLDER || self.id == ZERO_PLACEHOLDER { "P".into() } else { self.val.to_string() }
+    }
+}
+
+/// what the owned iterators move out: the drop-counting `Dc`, or plain `u64` where the
+/// container first has to go through an operation that needs `Clone` / `Numeric` elements
+trait OwnElem: Default + ZeroOne + 'static {
+    const COUNTED: bool;
+    fn make(id: u64) -> Self;
+    fn show_e(&self) -> String;
+}
+
+impl OwnElem for Dc {
+    const COUNTED: bool = true;
+    fn make(id: u64) -> Dc {
+        Dc::new(id)
+    }
+    fn show_e(&self) -> String {
+        self.show()
+    }
+}
+
+impl OwnElem for u64 {
+    const COUNTED: bool = false;
+    fn make(id: u64) -> u64 {
+        val_of(id as usize)
+    }
+    fn show_e(&self) -> String {
+        self.to_string()
+    }
+}
+
+/// the clonable counterpart of `Dc` (no drop accounting): for containers that first go through
+/// an operation which needs `Clone` elements
+#[derive(Clone, Debug)]
+pub struct Cl {
+    val: u64,
+    placeholder: bool,
+}
+
+impl Default for Cl {
+    fn default() -> Cl {
+        Cl { val: 0, placeholder: true }
+    }
+}
+
+impl ZeroOne for Cl {
+    fn zero() -> Cl {
+        Cl { val: 0, placeholder: true }
+    }
+    fn one() -> Cl {
+        unreachable!("the iterators never ask for one()")
+    }
+}
+
+impl OwnElem for Cl {
+    const COUNTED: bool = false;
+    fn make(id: u64) -> Cl {
+        Cl { val: val_of(id as usize), placeholder: false }
+    }
+    fn show_e(&self) -> String {
+        if self.placeholder { "P".into() } else { self.val.to_string() }
     }
 }
 
@@ -458,7 +522,7 @@ fn distinct_report_ids(cells: &[usize], now: &[(usize, u64)]) -> &'static str {
     for (id, v) in now {
         let k = seen[id];
         let expected = if mode() == 0 {
-            *id as u64 + BUMP * k as u64
+            val_of(*id) + BUMP * k as u64
         } else if k == 0 {
             val_of(*id)
         } else {
@@ -471,23 +535,23 @@ fn distinct_report_ids(cells: &[usize], now: &[(usize, u64)]) -> &'static str {
     " distinct=ok"
 }
 
-fn run_owned<I: ExactSizeIterator<Item = Dc>>(make: impl FnOnce() -> I, n: usize) -> (String, Vec<Dc>) {
+fn run_owned<E: OwnElem, I: ExactSizeIterator<Item = E>>(make: impl FnOnce() -> I, n: usize) -> (String, Vec<E>) {
     let mut moved = vec![];
     let s = drive(make, n, |v| {
-        let s = v.show();
+        let s = v.show_e();
         moved.push(v);
         s
     });
     (s, moved)
 }
 
-fn run_owned_wi<X: ShowIdx, I: ExactSizeIterator<Item = (X, Dc)>>(
+fn run_owned_wi<E: OwnElem, X: ShowIdx, I: ExactSizeIterator<Item = (X, E)>>(
     make: impl FnOnce() -> I,
     n: usize,
-) -> (String, Vec<Dc>) {
+) -> (String, Vec<E>) {
     let mut moved = vec![];
     let s = drive(make, n, |(i, v)| {
-        let s = format!("{}@{}", v.show(), i.show_idx());
+        let s = format!("{}@{}", v.show_e(), i.show_idx());
         moved.push(v);
         s
     });
@@ -545,26 +609,26 @@ where
     (s, write_all(refs.into_inner(), base))
 }
 
-fn run_owned_split<X: ShowIdx, I: ExactSizeIterator<Item = Dc>>(
+fn run_owned_split<E: OwnElem, X: ShowIdx, I: ExactSizeIterator<Item = E>>(
     make: impl FnOnce() -> WithIndex<I>,
     k: usize,
     n: usize,
-) -> (String, Vec<Dc>)
+) -> (String, Vec<E>)
 where
-    WithIndex<I>: ExactSizeIterator<Item = (X, Dc)>,
+    WithIndex<I>: ExactSizeIterator<Item = (X, E)>,
 {
-    let moved: RefCell<Vec<Dc>> = RefCell::new(vec![]);
+    let moved: RefCell<Vec<E>> = RefCell::new(vec![]);
     let s = drive_split(
         make,
         k,
         n,
         |(i, v)| {
-            let s = format!("{}@{}", v.show(), i.show_idx());
+            let s = format!("{}@{}", v.show_e(), i.show_idx());
             moved.borrow_mut().push(v);
             s
         },
         |v| {
-            let s = v.show();
+            let s = v.show_e();
             moved.borrow_mut().push(v);
             s
         },
@@ -843,6 +907,206 @@ fn build_matrix<E: 'static>(leaf: &'static mut Matrix<E>, ads: &[MAd]) -> BoxM<E
     src
 }
 
+
+// ---------------------------------------------------------------------------------------------
+// producers: what happened to the container before it is iterated
+// ---------------------------------------------------------------------------------------------
+
+#[derive(Clone, Debug)]
+enum TPrep {
+    /// the data `Vec` is built with this much spare capacity (must come first)
+    Cap(usize),
+    ReshapeMut(Vec<(&'static str, usize)>),
+    TransposeMut(Vec<&'static str>),
+    ReorderMut(Vec<&'static str>),
+}
+
+#[derive(Clone, Debug)]
+enum MPrep {
+    Cap(usize),
+    RemoveRow(usize),
+    RemoveColumn(usize),
+    /// `insert_row_with` / `insert_column_with`, the new cells get the ids 50000, 50001, …
+    InsertRow(usize),
+    InsertColumn(usize),
+    TransposeMut,
+}
+
+const INSERTED_ID: u64 = 50_000;
+
+fn tprep_needs_clone(p: &TPrep) -> bool {
+    matches!(p, TPrep::TransposeMut(_) | TPrep::ReorderMut(_))
+}
+
+fn mprep_needs_clone(p: &MPrep) -> bool {
+    matches!(p, MPrep::InsertRow(_) | MPrep::InsertColumn(_) | MPrep::TransposeMut)
+}
+
+fn parse_tprep(tok: &str) -> TPrep {
+    let parts: Vec<&str> = tok.splitn(2, ':').collect();
+    match parts[0] {
+        "cap" => TPrep::Cap(parts[1].parse().unwrap()),
+        "reshape_mut" => TPrep::ReshapeMut(parse_shape(&parts[1].replace('/', ":"))),
+        "transpose_mut" => TPrep::TransposeMut(parse_names(parts[1])),
+        "reorder_mut" => TPrep::ReorderMut(parse_names(parts[1])),
+        other => panic!("unknown tensor prep {}", other),
+    }
+}
+
+fn parse_mprep(tok: &str) -> MPrep {
+    let parts: Vec<&str> = tok.splitn(2, ':').collect();
+    let arg = || parts[1].parse::<usize>().unwrap();
+    match parts[0] {
+        "cap" => MPrep::Cap(arg()),
+        "remove_row" => MPrep::RemoveRow(arg()),
+        "remove_column" => MPrep::RemoveColumn(arg()),
+        "insert_row" => MPrep::InsertRow(arg()),
+        "insert_column" => MPrep::InsertColumn(arg()),
+        "transpose_mut" => MPrep::TransposeMut,
+        other => panic!("unknown matrix prep {}", other),
+    }
+}
+
+/// `len` elements made from the ids 0.., in a `Vec` with `cap` spare capacity
+fn data_with_capacity<E: OwnElem>(len: usize, cap: usize) -> Vec<E> {
+    let mut data: Vec<E> = Vec::with_capacity(len + cap);
+    data.extend((0..len as u64).map(E::make));
+    data
+}
+
+/// the preps that work for every element type
+fn prep_tensor_any<E, const D: usize>(t: &mut Tensor<E, D>, p: &TPrep) -> bool {
+    match p {
+        TPrep::Cap(_) => true,
+        TPrep::ReshapeMut(shape) => {
+            if shape.len() != D {
+                return false;
+            }
+            let shape: [(&'static str, usize); D] = shape_array(shape);
+            t.reshape_mut(shape);
+            true
+        }
+        _ => false,
+    }
+}
+
+fn prep_tensor_clone<E: Clone, const D: usize>(t: &mut Tensor<E, D>, p: &TPrep) -> bool {
+    match p {
+        TPrep::TransposeMut(names) if names.len() == D => {
+            t.transpose_mut(names_array(names));
+            true
+        }
+        TPrep::ReorderMut(names) if names.len() == D => {
+            t.reorder_mut(names_array(names));
+            true
+        }
+        other => prep_tensor_any(t, other),
+    }
+}
+
+fn prep_matrix_any<E>(m: &mut Matrix<E>, p: &MPrep) -> bool {
+    match p {
+        MPrep::Cap(_) => true,
+        MPrep::RemoveRow(r) => {
+            m.remove_row(*r);
+            true
+        }
+        MPrep::RemoveColumn(c) => {
+            m.remove_column(*c);
+            true
+        }
+        _ => false,
+    }
+}
+
+fn prep_matrix_u64(m: &mut Matrix<u64>, p: &MPrep) -> bool {
+    prep_matrix_clone(m, p)
+}
+
+fn prep_matrix_clone<E: OwnElem + Clone>(m: &mut Matrix<E>, p: &MPrep) -> bool {
+    match p {
+        MPrep::InsertRow(r) => {
+            let n = m.columns() as u64;
+            m.insert_row_with(*r, (0..n).map(|i| E::make(INSERTED_ID + i)));
+            true
+        }
+        MPrep::InsertColumn(c) => {
+            let n = m.rows() as u64;
+            m.insert_column_with(*c, (0..n).map(|i| E::make(INSERTED_ID + i)));
+            true
+        }
+        MPrep::TransposeMut => {
+            m.transpose_mut();
+            true
+        }
+        other => prep_matrix_any(m, other),
+    }
+}
+
+/// the leaf tensor after its preps (`Err`: a prep panicked or does not fit the element type)
+fn make_tensor<E: OwnElem, const D: usize>(
+    shape: &[(&'static str, usize)],
+    preps: &[TPrep],
+    apply: fn(&mut Tensor<E, D>, &TPrep) -> bool,
+) -> Result<Tensor<E, D>, String> {
+    let shape: [(&'static str, usize); D] = shape_array(shape);
+    let total: usize = shape.iter().map(|d| d.1).product();
+    let cap = match preps.first() {
+        Some(TPrep::Cap(k)) => *k,
+        _ => 0,
+    };
+    let mut t = match catch(move || Tensor::from(shape, data_with_capacity::<E>(total, cap))) {
+        Ok(t) => t,
+        Err(k) => return Err(panic_str(k)),
+    };
+    for p in preps {
+        match catch(|| apply(&mut t, p)) {
+            Ok(true) => {}
+            Ok(false) => return Err("bad-op".into()),
+            Err(PanicKind::Explicit) => return Err("reject".into()),
+            Err(k) => return Err(panic_str(k)),
+        }
+    }
+    Ok(t)
+}
+
+fn make_matrix<E: OwnElem>(
+    rows: usize,
+    cols: usize,
+    preps: &[MPrep],
+    apply: fn(&mut Matrix<E>, &MPrep) -> bool,
+) -> Result<Matrix<E>, String> {
+    let cap = match preps.first() {
+        Some(MPrep::Cap(k)) => *k,
+        _ => 0,
+    };
+    let mut m = Matrix::from_flat_row_major((rows, cols), data_with_capacity::<E>(rows * cols, cap));
+    for p in preps {
+        match catch(|| apply(&mut m, p)) {
+            Ok(true) => {}
+            Ok(false) => return Err("bad-op".into()),
+            Err(PanicKind::Explicit) => return Err("reject".into()),
+            Err(k) => return Err(panic_str(k)),
+        }
+    }
+    Ok(m)
+}
+
+thread_local! {
+    /// after preps the cells no longer hold their own id: the values found in storage order
+    static SNAPSHOT: RefCell<Option<Vec<u64>>> = RefCell::new(None);
+}
+
+fn snapshot_clear() {
+    SNAPSHOT.with(|s| *s.borrow_mut() = None);
+}
+
+/// Safety: `base` points at `len` initialised `u64`s and nobody holds a `&mut` to them
+unsafe fn snapshot_from(base: *const u64, len: usize) {
+    let v: Vec<u64> = (0..len).map(|o| *base.add(o)).collect();
+    SNAPSHOT.with(|s| *s.borrow_mut() = Some(v));
+}
+
 // ---------------------------------------------------------------------------------------------
 // running the tensor iterators
 // ---------------------------------------------------------------------------------------------
@@ -1023,7 +1287,7 @@ fn consume_boxed_u64<const D: usize>(src: BoxT<u64, D>, op: &Op, base: Base) -> 
     }
 }
 
-fn consume_boxed_owned<const D: usize>(src: BoxT<Dc, D>, op: &Op) -> String {
+fn consume_boxed_owned<E: OwnElem, const D: usize>(src: BoxT<E, D>, op: &Op) -> String {
     let mut src = src;
     let into = op.into;
     let numeric = op.via.ends_with("_numeric");
@@ -1032,13 +1296,13 @@ fn consume_boxed_owned<const D: usize>(src: BoxT<Dc, D>, op: &Op) -> String {
         consume(
             || wi!(into, own!(numeric, TensorOwnedIterator, &mut src)),
             op,
-            |(i, v): ([usize; D], Dc)| format!("{}@{}", v.show(), i.show_idx()),
+            |(i, v): ([usize; D], E)| format!("{}@{}", v.show_e(), i.show_idx()),
         )
     } else {
-        consume(|| own!(numeric, TensorOwnedIterator, &mut src), op, |v: Dc| v.show())
+        consume(|| own!(numeric, TensorOwnedIterator, &mut src), op, |v: E| v.show_e())
     };
     if op.m.starts_with("panic") {
-        let fresh = fresh_values(|| TensorReferenceIterator::from(&src).map(|d| d.show()).collect());
+        let fresh = fresh_values(|| TensorReferenceIterator::from(&src).map(|d| d.show_e()).collect());
         format!("{} | fresh={}", s, fresh)
     } else {
         s
@@ -1101,36 +1365,74 @@ fn consume_matrix_u64(src: BoxM<u64>, op: &Op, base: Base) -> String {
     }
 }
 
-fn consume_matrix_owned(src: BoxM<Dc>, op: &Op) -> String {
+fn consume_matrix_owned<E: OwnElem>(src: BoxM<E>, op: &Op) -> String {
     let mut src = src;
     let into = op.into;
     let numeric = op.via.ends_with("_numeric");
     let s = match (op.kind, op.wi) {
-        ("rowmajor", false) => consume(|| own!(numeric, mi::RowMajorOwnedIterator, &mut src), op, |v: Dc| v.show()),
+        ("rowmajor", false) => consume(|| own!(numeric, mi::RowMajorOwnedIterator, &mut src), op, |v: E| v.show_e()),
         ("rowmajor", true) => consume(
             || wi!(into, own!(numeric, mi::RowMajorOwnedIterator, &mut src)),
             op,
-            |(i, v): ((usize, usize), Dc)| format!("{}@{}", v.show(), i.show_idx()),
+            |(i, v): ((usize, usize), E)| format!("{}@{}", v.show_e(), i.show_idx()),
         ),
         ("colmajor", false) => {
-            consume(|| own!(numeric, mi::ColumnMajorOwnedIterator, &mut src), op, |v: Dc| v.show())
+            consume(|| own!(numeric, mi::ColumnMajorOwnedIterator, &mut src), op, |v: E| v.show_e())
         }
         ("colmajor", true) => consume(
             || wi!(into, own!(numeric, mi::ColumnMajorOwnedIterator, &mut src)),
             op,
-            |(i, v): ((usize, usize), Dc)| format!("{}@{}", v.show(), i.show_idx()),
+            |(i, v): ((usize, usize), E)| format!("{}@{}", v.show_e(), i.show_idx()),
         ),
         _ => return "bad-op".into(),
     };
     if op.m.starts_with("panic") {
         let fresh = fresh_values(|| match op.kind {
-            "rowmajor" => mi::RowMajorReferenceIterator::from(&src).map(|d| d.show()).collect(),
-            _ => mi::ColumnMajorReferenceIterator::from(&src).map(|d| d.show()).collect(),
+            "rowmajor" => mi::RowMajorReferenceIterator::from(&src).map(|d| d.show_e()).collect(),
+            _ => mi::ColumnMajorReferenceIterator::from(&src).map(|d| d.show_e()).collect(),
         });
         format!("{} | fresh={}", s, fresh)
     } else {
         s
     }
+}
+
+/// Every index of the view, in order, through one of the four getters of `TensorRef`/`TensorMut`
+/// (`m=checked|checked_mut|unchecked|unchecked_mut`); the checked ones also get an index just
+/// outside the shape.
+fn probe_boxed<const D: usize>(src: BoxT<u64, D>, op: &Op, base: Base) -> String {
+    let mut src = src;
+    let shape = src.view_shape();
+    let total: usize = shape.iter().map(|d| d.1).product();
+    let mut cells: Vec<String> = vec![];
+    let mut read = |idx: [usize; D], src: &mut BoxT<u64, D>| -> String {
+        let r: Result<Option<String>, PanicKind> = match op.m {
+            "checked" => catch(|| TensorRef::get_reference(&*src, idx).map(|r| base.cell(r))),
+            "checked_mut" => catch(|| TensorMut::get_reference_mut(&mut *src, idx).map(|r| base.cell(r))),
+            "unchecked" => catch(|| Some(base.cell(unsafe { src.get_reference_unchecked(idx) }))),
+            _ => catch(|| Some(base.cell(unsafe { src.get_reference_unchecked_mut(idx) }))),
+        };
+        match r {
+            Ok(Some(c)) => c,
+            Ok(None) => "-".into(),
+            Err(k) => panic_str(k),
+        }
+    };
+    for o in 0..total {
+        let mut rest = o;
+        let mut idx = [0usize; D];
+        for d in (0..D).rev() {
+            idx[d] = rest % shape[d].1;
+            rest /= shape[d].1;
+        }
+        cells.push(read(idx, &mut src));
+    }
+    let mut out = format!("cells={}", join_or_dash(cells));
+    if op.m.starts_with("checked") && D > 0 {
+        let idx: [usize; D] = std::array::from_fn(|d| shape[d].1);
+        out.push_str(&format!(" outside={}", read(idx, &mut src)));
+    }
+    out
 }
 
 /// every reference flavour over a boxed source: the iterator structs' constructors
@@ -1142,6 +1444,9 @@ fn boxed_u64<const D: usize>(
 ) -> Result<(String, Option<Vec<usize>>), String> {
     if op.op == "consume" {
         return Ok((consume_boxed_u64(src, op, base), None));
+    }
+    if op.op == "probe" {
+        return Ok((probe_boxed(src, op, base), None));
     }
     let mut src = src;
     let n = op.n;
@@ -1210,11 +1515,24 @@ fn boxed_u64<const D: usize>(
     Ok((recs, written))
 }
 
-fn tensor_u64<const D: usize>(shape: &[(&'static str, usize)], ads: &[TAd], op: &Op) -> String {
-    let shape: [(&'static str, usize); D] = shape_array(shape);
+fn tensor_u64<const D: usize>(
+    shape: &[(&'static str, usize)],
+    preps: &[TPrep],
+    ads: &[TAd],
+    op: &Op,
+) -> String {
+    snapshot_clear();
     let total: usize = shape.iter().map(|d| d.1).product();
-    let leaf = Leaf::new(Tensor::from(shape, (0..total).map(val_of).collect()));
-    let base = Base::single(TensorRef::get_reference(leaf.get(), [0; D]).unwrap() as *const u64);
+    let leaf = match make_tensor::<u64, D>(shape, preps, prep_tensor_clone) {
+        Ok(t) => Leaf::new(t),
+        Err(e) => return e,
+    };
+    let base_ptr = TensorRef::get_reference(leaf.get(), [0; D]).unwrap() as *const u64;
+    if !preps.is_empty() {
+        // Safety: nothing borrows the leaf yet
+        unsafe { snapshot_from(base_ptr, total) };
+    }
+    let base = Base::single(base_ptr);
     let n = op.n;
     let into = op.into;
     let split = op.split.unwrap_or(0);
@@ -1325,7 +1643,7 @@ fn tensor_u64<const D: usize>(shape: &[(&'static str, usize)], ads: &[TAd], op: 
 }
 
 /// the owned iterator over a boxed source (`via=boxed[_numeric]`, `via=boxedview`)
-fn boxed_owned<const D: usize>(src: BoxT<Dc, D>, op: &Op) -> Result<(String, Vec<Dc>), String> {
+fn boxed_owned<E: OwnElem, const D: usize>(src: BoxT<E, D>, op: &Op) -> Result<(String, Vec<E>), String> {
     if op.op == "consume" {
         return Ok((consume_boxed_owned(src, op), vec![]));
     }
@@ -1352,11 +1670,23 @@ fn boxed_owned<const D: usize>(src: BoxT<Dc, D>, op: &Op) -> Result<(String, Vec
 )
 }
 
-fn tensor_owned<const D: usize>(shape: &[(&'static str, usize)], ads: &[TAd], op: &Op) -> String {
-    let shape: [(&'static str, usize); D] = shape_array(shape);
+fn tensor_owned<E: OwnElem, const D: usize>(
+    shape: &[(&'static str, usize)],
+    preps: &[TPrep],
+    ads: &[TAd],
+    op: &Op,
+    apply: fn(&mut Tensor<E, D>, &TPrep) -> bool,
+) -> String {
+    snapshot_clear();
     let total: usize = shape.iter().map(|d| d.1).product();
     drops_reset();
-    let make_leaf = || Tensor::from(shape, (0..total as u64).map(Dc::new).collect());
+    let report = |numeric: bool| -> String {
+        if E::COUNTED { drops_report(total, numeric) } else { " drops=ok".to_string() }
+    };
+    let leaf_t: Tensor<E, D> = match make_tensor::<E, D>(shape, preps, apply) {
+        Ok(t) => t,
+        Err(e) => return e,
+    };
     let n = op.n;
     let into = op.into;
     let split = op.split.unwrap_or(0);
@@ -1366,7 +1696,7 @@ fn tensor_owned<const D: usize>(shape: &[(&'static str, usize)], ads: &[TAd], op
     };
     // consuming forms: the container itself is moved into the iterator
     if op_via == "tensor" || op_via == "view" {
-        let t = make_leaf();
+        let t = leaf_t;
         let (recs, moved) = match (op_via, op.wi) {
             ("tensor", false) => run_owned(move || t.iter_owned(), n),
             ("tensor", true) => run_owned_wi(move || wi!(into, t.iter_owned()), n),
@@ -1374,12 +1704,12 @@ fn tensor_owned<const D: usize>(shape: &[(&'static str, usize)], ads: &[TAd], op
             (_, _) => run_owned_wi(move || wi!(into, TensorView::from(t).iter_owned()), n),
         };
         drop(moved);
-        return format!("{}{}", recs, drops_report(total, numeric));
+        return format!("{}{}", recs, report(numeric));
     }
-    let leaf = Leaf::new(make_leaf());
+    let leaf = Leaf::new(leaf_t);
     let (recs, moved) = {
         // Safety: `t` and everything built from it die at the end of this block
-        let t: &'static mut Tensor<Dc, D> = unsafe { leaf.lend() };
+        let t: &'static mut Tensor<E, D> = unsafe { leaf.lend() };
         match (op_via, op.wi) {
             // source held by `&mut`
             ("from", false) => run_owned(|| own!(numeric, TensorOwnedIterator, &mut *t), n),
@@ -1406,13 +1736,13 @@ fn tensor_owned<const D: usize>(shape: &[(&'static str, usize)], ads: &[TAd], op
         }
     };
     if op.op == "left" {
-        let s = show_left(tensor_cells(leaf.get(), |d| d.show()).into_iter());
+        let s = show_left(tensor_cells(leaf.get(), |d| d.show_e()).into_iter());
         drop(moved);
         return s;
     }
     drop(moved);
     drop(leaf);
-    format!("{}{}", recs, drops_report(total, numeric))
+    format!("{}{}", recs, report(numeric))
 }
 
 
@@ -1739,10 +2069,19 @@ macro_rules! matrix_kinds {
     };
 }
 
-fn matrix_u64(rows: usize, cols: usize, ads: &[MAd], op: &Op) -> String {
-    let total = rows * cols;
-    let leaf = Leaf::new(Matrix::from_flat_row_major((rows, cols), (0..total).map(val_of).collect()));
-    let base = Base::single(leaf.get().get_reference(0, 0) as *const u64);
+fn matrix_u64(rows: usize, cols: usize, preps: &[MPrep], ads: &[MAd], op: &Op) -> String {
+    snapshot_clear();
+    let leaf = match make_matrix::<u64>(rows, cols, preps, prep_matrix_u64) {
+        Ok(m) => Leaf::new(m),
+        Err(e) => return e,
+    };
+    let base_ptr = leaf.get().get_reference(0, 0) as *const u64;
+    if !preps.is_empty() {
+        let (r, c) = leaf.get().size();
+        // Safety: nothing borrows the leaf yet
+        unsafe { snapshot_from(base_ptr, r * c) };
+    }
+    let base = Base::single(base_ptr);
     let a = op.a;
     let into = op.into;
     let split = op.split.unwrap_or(0);
@@ -1860,16 +2199,30 @@ fn matrix_u64(rows: usize, cols: usize, ads: &[MAd], op: &Op) -> String {
     }
 }
 
-fn matrix_owned(rows: usize, cols: usize, ads: &[MAd], op: &Op) -> String {
+fn matrix_owned<E: OwnElem>(
+    rows: usize,
+    cols: usize,
+    preps: &[MPrep],
+    ads: &[MAd],
+    op: &Op,
+    apply: fn(&mut Matrix<E>, &MPrep) -> bool,
+) -> String {
+    snapshot_clear();
     let total = rows * cols;
     drops_reset();
-    let make_leaf = || Matrix::from_flat_row_major((rows, cols), (0..total as u64).map(Dc::new).collect());
+    let report = |numeric: bool| -> String {
+        if E::COUNTED { drops_report(total, numeric) } else { " drops=ok".to_string() }
+    };
+    let leaf_m: Matrix<E> = match make_matrix::<E>(rows, cols, preps, apply) {
+        Ok(m) => m,
+        Err(e) => return e,
+    };
     let n = op.n;
     let into = op.into;
     let split = op.split.unwrap_or(0);
     let numeric = op.via.ends_with("_numeric");
     if op.via == "matrix" {
-        let m = make_leaf();
+        let m = leaf_m;
         let (recs, moved) = match (op.kind, op.wi) {
             ("rowmajor", false) => run_owned(move || m.row_major_owned_iter(), n),
             ("rowmajor", true) => run_owned_wi(move || wi!(into, m.row_major_owned_iter()), n),
@@ -1878,12 +2231,12 @@ fn matrix_owned(rows: usize, cols: usize, ads: &[MAd], op: &Op) -> String {
             _ => return "bad-op".into(),
         };
         drop(moved);
-        return format!("{}{}", recs, drops_report(total, numeric));
+        return format!("{}{}", recs, report(numeric));
     }
-    let leaf = Leaf::new(make_leaf());
+    let leaf = Leaf::new(leaf_m);
     let (recs, moved) = {
         // Safety: `m` and everything built from it die at the end of this block
-        let m: &'static mut Matrix<Dc> = unsafe { leaf.lend() };
+        let m: &'static mut Matrix<E> = unsafe { leaf.lend() };
         let src = build_matrix(m, ads);
         if op.op == "consume" {
             (consume_matrix_owned(src, op), vec![])
@@ -1906,13 +2259,13 @@ fn matrix_owned(rows: usize, cols: usize, ads: &[MAd], op: &Op) -> String {
         }
     };
     if op.op == "left" {
-        let s = show_left(matrix_cells(leaf.get(), |d| d.show()).into_iter());
+        let s = show_left(matrix_cells(leaf.get(), |d| d.show_e()).into_iter());
         drop(moved);
         return s;
     }
     drop(moved);
     drop(leaf);
-    format!("{}{}", recs, drops_report(total, numeric))
+    format!("{}{}", recs, report(numeric))
 }
 
 // ---------------------------------------------------------------------------------------------
@@ -1922,9 +2275,9 @@ fn matrix_owned(rows: usize, cols: usize, ads: &[MAd], op: &Op) -> String {
 enum Case {
     None,
     Shape(Vec<usize>),
-    Tensor(Vec<(&'static str, usize)>, Vec<TAd>),
+    Tensor(Vec<(&'static str, usize)>, Vec<TPrep>, Vec<TAd>),
     Zip(Root, Vec<TAd>),
-    Matrix(usize, usize, Vec<MAd>),
+    Matrix(usize, usize, Vec<MPrep>, Vec<MAd>),
 }
 
 pub struct Runner {
@@ -1951,16 +2304,18 @@ impl Runner {
                 self.case = Case::Shape(parse_usizes(lens_s));
                 "ok".into()
             }
-            ["@", "tensor", shape_s, ads @ ..] => {
+            ["@", "tensor", shape_s, rest @ ..] => {
                 let shape = parse_shape(shape_s);
-                let ads: Vec<TAd> = ads.iter().map(|t| parse_tad(t)).collect();
+                let preps: Vec<TPrep> =
+                    rest.iter().filter_map(|t| t.strip_prefix("prep:")).map(parse_tprep).collect();
+                let ads: Vec<TAd> =
+                    rest.iter().filter(|t| !t.starts_with("prep:")).map(|t| parse_tad(t)).collect();
                 // report the view shape the composed source has
                 let d = shape.len();
+                snapshot_clear();
                 let ans = with_d!(d, D => {
-                    let shape_a: [(&'static str, usize); D] = shape_array(&shape);
-                    let total: usize = shape_a.iter().map(|d| d.1).product();
-                    match catch(|| Tensor::from(shape_a, (0..total as u64).collect::<Vec<u64>>())) {
-                        Err(_) => "reject".to_string(),
+                    match make_tensor::<u64, D>(&shape, &preps, prep_tensor_clone) {
+                        Err(e) => if e == "bad-op" { e } else { "reject".to_string() },
                         Ok(t) => {
                             let leaf = Leaf::new(t);
                             let r = match build_tensor_with(unsafe { leaf.lend() }, &ads, false) {
@@ -1971,7 +2326,7 @@ impl Runner {
                         }
                     }
                 });
-                self.case = if ans.starts_with("ok") { Case::Tensor(shape, ads) } else { Case::None };
+                self.case = if ans.starts_with("ok") { Case::Tensor(shape, preps, ads) } else { Case::None };
                 ans
             }
             ["@", kind @ ("stack" | "chain"), rest @ ..] => {
@@ -1982,27 +2337,46 @@ impl Runner {
                 self.case = if ans.starts_with("ok") { Case::Zip(root, post) } else { Case::None };
                 ans
             }
-            ["@", "matrix", rows_s, cols_s, ads @ ..] => {
+            ["@", "matrix", rows_s, cols_s, rest @ ..] => {
                 let rows: usize = rows_s.parse().unwrap();
                 let cols: usize = cols_s.parse().unwrap();
-                let ads: Vec<MAd> = ads.iter().map(|t| parse_mad(t)).collect();
-                let leaf = Leaf::new(Matrix::from_flat_row_major((rows, cols), vec![0u64; rows * cols]));
-                let src = build_matrix(unsafe { leaf.lend() }, &ads);
-                let ans = format!("ok size={}x{}", src.view_rows(), src.view_columns());
-                drop(src);
-                self.case = Case::Matrix(rows, cols, ads);
-                ans
+                let preps: Vec<MPrep> =
+                    rest.iter().filter_map(|t| t.strip_prefix("prep:")).map(parse_mprep).collect();
+                let ads: Vec<MAd> =
+                    rest.iter().filter(|t| !t.starts_with("prep:")).map(|t| parse_mad(t)).collect();
+                snapshot_clear();
+                match make_matrix::<u64>(rows, cols, &preps, prep_matrix_u64) {
+                    Err(e) => {
+                        self.case = Case::None;
+                        if e == "bad-op" { e } else { "reject".to_string() }
+                    }
+                    Ok(m) => {
+                        let leaf = Leaf::new(m);
+                        let src = build_matrix(unsafe { leaf.lend() }, &ads);
+                        let ans = format!("ok size={}x{}", src.view_rows(), src.view_columns());
+                        drop(src);
+                        self.case = Case::Matrix(rows, cols, preps, ads);
+                        ans
+                    }
+                }
             }
-            [op @ ("iter" | "left" | "consume"), rest @ ..] => {
+            [op @ ("iter" | "left" | "consume" | "probe"), rest @ ..] => {
                 let o = parse_op(op, rest);
                 match &self.case {
                     Case::None => "no-source".into(),
                     Case::Shape(lens) => with_d!(lens.len(), D => shape_iter::<D>(lens, o.n)),
-                    Case::Tensor(shape, ads) => {
-                        if o.f == "owned" {
-                            with_d!(shape.len(), D => tensor_owned::<D>(shape, ads, &o))
+                    Case::Tensor(shape, preps, ads) => {
+                        if o.f == "owned" || o.op == "left" {
+                            if preps.iter().any(tprep_needs_clone) {
+                                // the producer needs `Clone` elements: plain numbers are moved out
+                                with_d!(shape.len(), D =>
+                                    tensor_owned::<Cl, D>(shape, preps, ads, &o, prep_tensor_clone))
+                            } else {
+                                with_d!(shape.len(), D =>
+                                    tensor_owned::<Dc, D>(shape, preps, ads, &o, prep_tensor_any))
+                            }
                         } else {
-                            with_d!(shape.len(), D => tensor_u64::<D>(shape, ads, &o))
+                            with_d!(shape.len(), D => tensor_u64::<D>(shape, preps, ads, &o))
                         }
                     }
                     Case::Zip(root, post) => {
@@ -2012,11 +2386,15 @@ impl Runner {
                             with_d!(root_dims(root), D => zip_u64::<D>(root, post, &o))
                         }
                     }
-                    Case::Matrix(rows, cols, ads) => {
+                    Case::Matrix(rows, cols, preps, ads) => {
                         if o.f == "owned" {
-                            matrix_owned(*rows, *cols, ads, &o)
+                            if preps.iter().any(mprep_needs_clone) {
+                                matrix_owned::<Cl>(*rows, *cols, preps, ads, &o, prep_matrix_clone)
+                            } else {
+                                matrix_owned::<Dc>(*rows, *cols, preps, ads, &o, prep_matrix_any)
+                            }
                         } else {
-                            matrix_u64(*rows, *cols, ads, &o)
+                            matrix_u64(*rows, *cols, preps, ads, &o)
                         }
                     }
                 }
@@ -2098,11 +2476,17 @@ fn shape_after(shape: &[(&'static str, usize)], ad: &TAd) -> Vec<(&'static str, 
 }
 
 fn random_tad(g: &mut Gen, shape: &[(&'static str, usize)]) -> Option<TAd> {
+    let k = g.rng.below(6);
+    tad_of_kind(g, shape, k)
+}
+
+/// an adaptor of kind 0 range, 1 reverse, 2 access, 3 transpose, 4 mask, 5 rename
+fn tad_of_kind(g: &mut Gen, shape: &[(&'static str, usize)], kind: usize) -> Option<TAd> {
     let d = shape.len();
     if d == 0 {
         return None;
     }
-    match g.rng.below(6) {
+    match kind {
         4 => {
             // hide a proper part of some dimensions that have at least two indexes
             let mut ms = vec![];
@@ -2832,10 +3216,218 @@ fn gen_large_cases(g: &mut Gen) {
     }
 }
 
+
+fn probe_ops(g: &mut Gen, all: bool) {
+    let mut ms = vec!["checked", "checked_mut", "unchecked", "unchecked_mut"];
+    if !all {
+        g.rng.shuffle(&mut ms);
+        ms.truncate(1);
+    }
+    for m in ms {
+        g.op(format!("probe m={} via=boxed", m));
+        g.count(&format!("probe.{}", m));
+    }
+}
+
+/// iterators over containers produced by another operation: in-place transposition /
+/// reordering / reshaping of tensors, removal / insertion / transposition of matrix rows and
+/// columns, data vectors with spare capacity
+fn gen_producer_cases(g: &mut Gen) {
+    let mut shapes: Vec<Vec<usize>> = shapes_up_to(3, 8).into_iter().filter(|l| l.len() >= 2).collect();
+    shapes.extend([vec![2, 2], vec![3, 3], vec![4, 4], vec![2, 3, 2], vec![1, 5], vec![2, 2, 2, 2]]);
+    for lens in shapes {
+        let shape = named(g, &lens);
+        let d = shape.len();
+        let mut perms = permutations(d);
+        if perms.len() > 2 && !g.thorough {
+            g.rng.shuffle(&mut perms);
+            perms.truncate(2);
+        }
+        for perm in perms {
+            let names: Vec<&'static str> = perm.iter().map(|&p| shape[p].0).collect();
+            for kind in ["transpose_mut", "reorder_mut"] {
+                // the shape afterwards
+                let cur: Vec<(&'static str, usize)> = if kind == "reorder_mut" {
+                    perm.iter().map(|&p| shape[p]).collect()
+                } else {
+                    (0..d).map(|i| (shape[i].0, shape[perm[i]].1)).collect()
+                };
+                let cap = if g.rng.chance(1, 3) { format!(" prep:cap:{}", g.rng.range(1, 9)) } else { String::new() };
+                let (ads, cur2) = if g.rng.chance(1, 3) { random_post(g, &cur, 1) } else { (vec![], cur.clone()) };
+                let sfx = data_suffix(g, 1, 4);
+                g.op(format!(
+                    "@ tensor {}{} prep:{}:{}{}{}",
+                    show_shape(&shape),
+                    cap,
+                    kind,
+                    show_names(&names),
+                    ads.iter().map(|a| format!(" {}", show_tad(a))).collect::<String>(),
+                    sfx
+                ));
+                g.count(&format!("producer.tensor.{}", kind));
+                let total: usize = cur2.iter().map(|s| s.1).product();
+                if ads.is_empty() {
+                    // the container's own iterators must follow the shape, not the history
+                    for (f, via) in [("copy", "tensor"), ("ref", "tensor"), ("mut", "from"), ("owned", "tensor"), ("owned", "from")] {
+                        let wi = g.rng.chance(1, 2);
+                        let w = wvia(g, wi);
+                        g.op(format!("iter f={} wi={} n={} via={}{}", f, wi as u8, total + 3, via, w));
+                    }
+                }
+                emit_tensor_ops(g, &cur2, &ads, false);
+                probe_ops(g, false);
+            }
+        }
+        // reshaped in place, data vector with spare capacity
+        let total: usize = lens.iter().product();
+        let flat = vec![(wire_name("flat"), total)];
+        let target: Vec<(&'static str, usize)> = if g.rng.chance(1, 2) || d != 2 {
+            if d == 1 { shape.clone() } else { let mut t = shape.clone(); t.reverse(); t }
+        } else {
+            vec![(shape[0].0, shape[1].1), (shape[1].0, shape[0].1)]
+        };
+        let _ = flat;
+        let spare = g.rng.range(1, 12);
+        g.op(format!(
+            "@ tensor {} prep:cap:{} prep:reshape_mut:{}",
+            show_shape(&shape),
+            spare,
+            show_shape(&target).replace(':', "/")
+        ));
+        g.count("producer.tensor.reshape_mut+cap");
+        emit_tensor_ops(g, &target, &[], false);
+    }
+    // matrices
+    for rows in 1..=4usize {
+        for cols in 1..=4usize {
+            let n_hist = if g.thorough { 4 } else { 2 };
+            for _ in 0..n_hist {
+                let (mut r, mut c) = (rows, cols);
+                let mut preps: Vec<String> = vec![];
+                if g.rng.chance(1, 3) {
+                    preps.push(format!("cap:{}", g.rng.range(1, 9)));
+                }
+                for _ in 0..g.rng.range(1, 3) {
+                    match g.rng.below(5) {
+                        0 if r > 1 => {
+                            preps.push(format!("remove_row:{}", g.rng.below(r)));
+                            r -= 1;
+                        }
+                        1 if c > 1 => {
+                            preps.push(format!("remove_column:{}", g.rng.below(c)));
+                            c -= 1;
+                        }
+                        2 => {
+                            preps.push(format!("insert_row:{}", g.rng.below(r + 1)));
+                            r += 1;
+                        }
+                        3 => {
+                            preps.push(format!("insert_column:{}", g.rng.below(c + 1)));
+                            c += 1;
+                        }
+                        _ => {
+                            preps.push("transpose_mut".to_string());
+                            std::mem::swap(&mut r, &mut c);
+                        }
+                    }
+                }
+                let mut ads: Vec<MAd> = vec![];
+                let (mut vr, mut vc) = (r, c);
+                if g.rng.chance(1, 3) {
+                    let rs = g.rng.below(r);
+                    let cs = g.rng.below(c);
+                    let rl = g.rng.range(1, r - rs);
+                    let cl = g.rng.range(1, c - cs);
+                    ads.push(MAd::Range(rs, rl, cs, cl));
+                    vr = rl;
+                    vc = cl;
+                }
+                let sfx = data_suffix(g, 1, 4);
+                g.op(format!(
+                    "@ matrix {} {}{}{}{}",
+                    rows,
+                    cols,
+                    preps.iter().map(|p| format!(" prep:{}", p)).collect::<String>(),
+                    ads.iter().map(|a| format!(" {}", show_mad(a))).collect::<String>(),
+                    sfx
+                ));
+                g.count("producer.matrix");
+                for p in &preps {
+                    g.count(&format!("producer.matrix.{}", p.split(':').next().unwrap()));
+                }
+                emit_matrix_ops(g, vr, vc, &ads, false);
+            }
+        }
+    }
+    // producers that refuse
+    for h in ["@ matrix 2 2 prep:remove_row:5", "@ matrix 1 3 prep:remove_row:0", "@ tensor a:2,b:3 prep:transpose_mut:a,zz"] {
+        g.op(h.to_string());
+        g.count("producer.rejected");
+    }
+}
+
+/// every tuple arity and array form of TensorStack / TensorChain, every flavour and every getter
+fn gen_zip_forms_all_paths(g: &mut Gen) {
+    for (form, n) in ZIP_FORMS {
+        let names = if g.rng.chance(1, 2) { adversarial_names(&mut g.rng, 3) } else { vec![wire_name("a"), wire_name("b"), wire_name("s")] };
+        // stack
+        let shape = vec![(names[0], 2usize), (names[1], 1 + g.rng.below(2))];
+        let pos = g.rng.below(3);
+        let mut stacked = shape.clone();
+        stacked.insert(pos, (names[2], n));
+        g.op(format!("@ stack {}.{} {} {} {}", pos, names[2], form, n, show_shape(&shape)));
+        g.count(&format!("zip.allpaths.stack.{}{}", form, n));
+        emit_tensor_ops(g, &stacked, &zip_vias_marker(), true);
+        probe_ops(g, true);
+        // chain, sources of different lengths
+        let lengths = [2usize, 1, 3, 1];
+        let shapes: Vec<Vec<(&'static str, usize)>> =
+            (0..n).map(|j| vec![(names[0], 2usize), (names[1], lengths[j])]).collect();
+        let chained = vec![(names[0], 2usize), (names[1], lengths[..n].iter().sum())];
+        g.op(format!(
+            "@ chain {} {} {}",
+            names[1],
+            form,
+            shapes.iter().map(|sh| show_shape(sh)).collect::<Vec<_>>().join("|")
+        ));
+        g.count(&format!("zip.allpaths.chain.{}{}", form, n));
+        emit_tensor_ops(g, &chained, &zip_vias_marker(), true);
+        probe_ops(g, true);
+    }
+}
+
+/// every ordered pair of adaptor kinds (depth 2 in both nesting orders)
+fn gen_adaptor_pairs(g: &mut Gen) {
+    const KINDS: [&str; 6] = ["range", "reverse", "access", "transpose", "mask", "rename"];
+    for k1 in 0..6 {
+        for k2 in 0..6 {
+            let shape = named(g, &[2, 3, 2]);
+            let a1 = match tad_of_kind(g, &shape, k1) {
+                Some(a) => a,
+                None => continue,
+            };
+            let s1 = shape_after(&shape, &a1);
+            let a2 = match tad_of_kind(g, &s1, k2) {
+                Some(a) => a,
+                None => continue,
+            };
+            let s2 = shape_after(&s1, &a2);
+            let sfx = data_suffix(g, 1, 4);
+            g.op(format!("@ tensor {} {} {}{}", show_shape(&shape), show_tad(&a1), show_tad(&a2), sfx));
+            g.count(&format!("pairs.{}>{}", KINDS[k1], KINDS[k2]));
+            emit_tensor_ops(g, &s2, &[a1, a2], g.thorough);
+            probe_ops(g, g.thorough);
+        }
+    }
+}
+
 pub fn gen(g: &mut Gen) {
     gen_shape_cases(g);
     gen_tensor_cases(g);
     gen_zip_cases(g);
+    gen_zip_forms_all_paths(g);
+    gen_adaptor_pairs(g);
+    gen_producer_cases(g);
     gen_matrix_cases(g);
     gen_large_cases(g);
 }
